@@ -7,12 +7,12 @@ using namespace wc;
 #endif
 
 struct X {
-  W w; uint16_t ka = 0, ska = 0; bool has_ska = false; uint32_t K = 0;
+  W w; uint16_t ka = 0, ska = 0; bool has_ska = false; uint32_t K = 0; bool sp = false;   // sp: Session Present of the next CONNACK
   vk::timer_rec* read_t() { return vk::world().timers[0]; }
   vk::timer_rec* ping_t() { return vk::world().timers[2]; }
   void connack() {
     uint8_t props[3] = {0x13, (uint8_t)(ska >> 8), (uint8_t)(ska & 0xFF)};
-    w.send_connack(false, 0, props, has_ska ? 3 : 0); w.feed_all(); vk::drain();
+    w.send_connack(sp, 0, props, has_ska ? 3 : 0); w.feed_all(); vk::drain();
   }
   // let time pass until the next PINGREQ is handed to the stream or the client gives the connection up; returns 1 / 2 (0: nothing left)
   int advance() {
@@ -45,9 +45,10 @@ extern "C" void h_keepalive(void) {
   X* x = new X(); W& w = x->w;
   x->ka = vk_sym_u16(); x->has_ska = vk_choose(2); x->ska = x->has_ska ? vk_sym_u16() : 0;
   x->K = x->has_ska ? x->ska : x->ka;
-  int scenario = vk_choose(5);
+  int scenario = vk_choose(6);
   bool traffic = scenario == 4; if (traffic) scenario = 1;     // scenario 1 with application traffic inside every keep-alive interval
-  if (scenario == 3) vk_assume(x->K == 0); else vk_assume(x->K >= 1 && x->K <= VK_KMAX);
+  bool first_zero = scenario == 5; if (first_zero) scenario = 2;   // scenario 2 starting from keep-alive 0 (nothing armed) and reconnecting to K > 0
+  if (scenario == 3 || first_zero) vk_assume(x->K == 0); else vk_assume(x->K >= 1 && x->K <= VK_KMAX);
   vk_assume(x->ka <= 1000);
   w.c.keep_alive(x->ka);
   w.start(); bool ok = w.establish(); vk_assert(ok, "first connection"); x->connack();
@@ -60,6 +61,12 @@ extern "C" void h_keepalive(void) {
     vk_assert(w.count_of(ref::PINGREQ) == 0 && w.connected(), "client pinged or dropped the connection although keep-alive is 0");
     vk_reach("no-keepalive"); return;
   }
+  int64_t t_ping = vk_now_ms;
+  if (first_zero) {
+    vk_assert(!x->ping_t()->armed || x->ping_t()->max_wait, "ping timer runs although keep-alive is 0");
+    int r0 = x->advance(); vk_assert(r0 == 0 && w.count_of(ref::PINGREQ) == 0 && w.connected(), "client pinged or dropped the connection although keep-alive is 0");
+    vk_reach("keepalive-zero-first");
+  } else {
   vk_assert(x->ping_t()->armed && x->ping_t()->dur_ms == Kms, "ping timer is not armed with exactly the negotiated keep-alive");
   vk_assert(x->read_t()->armed && x->read_t()->dur_ms == Kms + Kms / 2, "read timeout is not exactly 1.5 x the negotiated keep-alive");
   // outgoing traffic inside the interval does not postpone the PINGREQ (the property quantifies over traffic patterns)
@@ -69,7 +76,8 @@ extern "C" void h_keepalive(void) {
   vk_assert(vk_now_ms - t_connack <= Kms, "first PINGREQ later than K seconds after CONNACK");
   auto* s = vk::pending_write(); int b = w.npk; w.finish_write(s, s->wdata.size(), {}); vk::drain();
   vk_assert(w.npk == b + 1 && w.pk[b].type == ref::PINGREQ, "the keep-alive write is not exactly one PINGREQ");
-  int64_t t_ping = vk_now_ms; vk_reach("first-ping");
+  t_ping = vk_now_ms; vk_reach("first-ping");
+  }
   if (scenario == 0) {
     // silent broker: the connection is given up exactly 1.5 K after the last byte (the CONNACK) arrived, never earlier
     int r2 = x->advance();
@@ -91,8 +99,10 @@ extern "C" void h_keepalive(void) {
     vk_reach("timeout-after-traffic");
   } else {
     // reconnect with a different Server Keep Alive (possibly 0): both timers follow the new value from then on, cycle after cycle
-    uint16_t ska2 = vk_sym_u16(); vk_assume(ska2 <= VK_KMAX);
+    uint16_t ska2 = vk_sym_u16(); vk_assume(ska2 <= VK_KMAX); if (first_zero) vk_assume(ska2 >= 1);
     w.drop_connection(); vk::drain(); bool ok2 = w.establish(); vk_assert(ok2, "client reconnects");
+    // the session is resumed or not (Session Present 1 / 0): the keep-alive of the new connection applies either way
+    x->sp = vk_choose(2); if (x->sp) vk_reach("new-keepalive-session-resumed");
     x->has_ska = true; x->ska = ska2; x->connack(); int64_t t2 = vk_now_ms; int64_t K2 = (int64_t)ska2 * 1000;
     // a PINGREQ that was queued while the reconnect was in progress may go out at once; complete it
     if (auto* s0 = vk::pending_write()) { w.finish_write(s0, s0->wdata.size(), {}); vk::drain(); vk_reach("ping-during-reconnect"); }
